@@ -163,7 +163,7 @@ def choose_step(rng, cfg, fb, sim):
         return {"h": fb["h"], "op": "inspect"}
     if fb is not None:
         if fb["new_memo"] and cfg["p_mut"] > 0 and rng.random() < 0.5:
-            return {"h": fb["h"], "op": rng.choice(["toH", "toR", "toH", "toR", "normH", "normH_tol", "flip2", "flip3"])}
+            return {"h": fb["h"], "op": rng.choice(["toH", "toR", "toH", "toR", "normH", "normH_tol", "flip2", "flip3"] * 4 + ["flip1001"])}
         if fb["changed"]:
             r = rng.random()
             if r < 0.3 and cfg["p_fork"] > 0:
@@ -172,7 +172,7 @@ def choose_step(rng, cfg, fb, sim):
                 return {"h": fb["h"], "op": rng.choice(CONSUMERS)}
     r = rng.random()
     if r < cfg["p_mut"]:
-        return {"h": hi, "op": rng.choice(["toH", "toR", "toH", "toR", "normH", "normH_tol", "flip2", "flip3"])}
+        return {"h": hi, "op": rng.choice(["toH", "toR", "toH", "toR", "normH", "normH_tol", "flip2", "flip3"] * 4 + ["flip1001"])}
     r -= cfg["p_mut"]
     if r < cfg["p_fork"]:
         return {"h": hi, "op": rng.choice(FORK_OPS)}
@@ -268,7 +268,7 @@ def random_run(verif_seed, index, stratum="random"):
 
 # ------------------------------------------------------------- templates
 TEMPLATE_Q1 = [None, "uc_atoms", "conn", "uc_mols", "sym_mols", "labelled_uc_mols"]
-TEMPLATE_MUT = ["switch", "flip3", "normH", "normH_tol", "same"]
+TEMPLATE_MUT = ["switch", "flip3", "normH", "normH_tol", "same", "long"]
 TEMPLATE_SRC = [
     ("co", None),
     ("co", "cif"),
@@ -299,6 +299,10 @@ TEMPLATE_COMBOS = [
     # asking for the setting the crystal is in already (a state-changing call that changes nothing)
     and (TEMPLATE_MUT[m] != "same" or (p < N_MEMO_PAIRS and TEMPLATE_PAIRS[p][0] in (None, "uc_atoms", "sym_mols")
                                        and TEMPLATE_PAIRS[p][1] in ("cif_twin", "cif", "sl_cif", "res", "uc_atoms", "sym_mols")))
+    # a long life first (1001 switches), then query -> switch -> the same query
+    and (TEMPLATE_MUT[m] != "long" or (p < N_MEMO_PAIRS and TEMPLATE_PAIRS[p][0] in (None, "uc_atoms")
+                                       and TEMPLATE_PAIRS[p][1] in ("uc_atoms", "conn", "sym_mols", "density", "cif", "sl_res",
+                                                                    "cif_twin", "as_P1")))
 ]
 N_TEMPLATES = len(TEMPLATE_COMBOS)
 
@@ -354,7 +358,7 @@ def template_run(verif_seed, index, stratum="template"):
             other = "toR" if choice == "H" else "toH"
             back = "toH" if choice == "H" else "toR"
             tail = {"switch": [other], "switch2": [other, back], "flip3": ["flip3"], "normH": ["normH"],
-                    "normH_tol": ["normH_tol"], "same": [back]}[mut]
+                    "normH_tol": ["normH_tol"], "same": [back], "long": ["flip1001", q2, back]}[mut]
             rest = [{"h": target, "op": m} for m in tail]
             if defer:
                 rest.append({"h": target, "op": "inspect"})
